@@ -4,4 +4,5 @@ CONSTANTS
   MaxOps = 4
   SetOrder = FALSE
   Timestamps = TRUE
+  ComponentMemo = FALSE
 INVARIANT OutputIsFunctionOfModel
